@@ -175,8 +175,17 @@ Definition name_matches (n:namerec) (e:dirent) : bool :=
 (** [get_entries]: (dirs, files, specials) in slot order *)
 Definition ge_dirs (es:list dirent) := filter (fun e => negb (is_special e || is_volid e) && is_dir e) es.
 Definition ge_files (es:list dirent) := filter (fun e => negb (is_special e || is_volid e) && negb (is_dir e)) es.
+(** second pass of [_search_entry]: an entry without long name matches name.upper() *)
+Definition name_matches_upper (n:namerec) (e:dirent) : bool :=
+  match d_lfn e, n_oem_up n with
+  | None, Some b => list_eqb (sfn_display (d_name e)) b
+  | _, _ => false
+  end.
 Definition search_entry (es:list dirent) (n:namerec) : option dirent :=
-  find (name_matches n) (ge_dirs es ++ ge_files es).
+  match find (name_matches n) (ge_dirs es ++ ge_files es) with
+  | Some e => Some e
+  | None => find (name_matches_upper n) (ge_dirs es ++ ge_files es)
+  end.
 
 (** ** alias generation, byte level ([make_8dot3_name] after the str-level preparation) *)
 Definition map_chars (b:list Z) : list Z :=
